@@ -627,7 +627,9 @@ func classifyExitFailure(r *Runner, s *Snap, pk PosKey, bal math.Int, res TxResu
 			return "rounder-balance"
 		}
 		if bal.GT(math.OneInt()) {
-			r2 := w.RunMsgOn(w.Ctx, r.buildMsg(Step{K: "undelegate", A: ai, V: vi, Den: pk.Denom, Amt: bal.SubRaw(1).String()}), false)
+			bctx, _ := w.Ctx.CacheContext()
+			r.TopUpPool(bctx)
+			r2 := w.RunMsgOn(bctx, r.buildMsg(Step{K: "undelegate", A: ai, V: vi, Den: pk.Denom, Amt: bal.SubRaw(1).String()}), false)
 			if r2.OK {
 				return "rounder-balance"
 			}
